@@ -2,7 +2,7 @@
    range.  Only the property theorems, each closed by [exact]; proofs live in
    Midi/MidiProofs.v, the model in Midi/MidiModel.v, the Spec in Midi/MidiSpec.v. *)
 From Coq Require Import List ZArith QArith.
-From RtoscV Require Import Midi.MidiModel Midi.MidiSpec Midi.MidiProofs Midi.MidiFloat Midi.MidiProto Midi.MidiNrt Midi.MidiSilent Midi.MidiInv Midi.MidiRefine.
+From RtoscV Require Import Midi.MidiModel Midi.MidiSpec Midi.MidiProofs Midi.MidiFloat Midi.MidiProto Midi.MidiNrt Midi.MidiSilent Midi.MidiInv Midi.MidiRefine Midi.MidiRound Midi.MidiValues Midi.MidiCapacity.
 Import ListNotations.
 Local Open Scope Z_scope.
 
@@ -36,25 +36,33 @@ Theorem C20_refuted :
     quiescent evs tr = false.
 Proof. exact d19_refuted. Qed.
 
-(* the value a callback built by generateNewBijection sends lies within the
-   port's [min,max] ('i' ports: the integer parts) and carries the port's
-   address.  _partial: the IEEE rounding facts rounding_ok (monotone, exact on
-   the bounds and 0, relative error on the two inexact operations) are
-   hypotheses; the executable model uses rf = r24, rd = r53.
-   Full statement: the same with rf := r24, rd := r53 and no rounding_ok. *)
-Theorem C20_bijection_range_partial : forall rf rd p a x,
-  rounding_ok rf rd {| bmin := pmin p; bmax := pmax p |} ->
-  (dy2Q (pmin p) <= dy2Q (pmax p))%Q -> 0 <= x < 16384 ->
-  maddr (cb_gen rf rd (mk_cb p a) x) = a /\
-  mval_in_range p (mvalue (cb_gen rf rd (mk_cb p a) x)).
-Proof. exact cb_range. Qed.
+(* Within the parameter's [min,max] and monotone - for the EXECUTABLE model
+   (run_cb = the callbacks with rf := r24, rd := r53), no rounding hypothesis:
+   MidiRound proves rnd p emin = Flocq's round-to-nearest-even onto FLT(emin,p)
+   (rnd_is_round) and derives rounding_ok from round_le, round_generic,
+   relative_error_N_FLT and FLT_format_plus_small (these go through Flocq and
+   the standard library's real numbers: see Print Assumptions).  float24 = a
+   float (|m| < 2^24, e >= -149); every binary32 pattern decodes to one
+   (float24_of_bits).  'i' ports: between the integer parts of the bounds. *)
+Theorem C20_bijection_range : forall p a x,
+  float24 (pmin p) -> float24 (pmax p) -> (dy2Q (pmin p) <= dy2Q (pmax p))%Q -> 0 <= x < 16384 ->
+  maddr (run_cb (mk_cb p a) x) = a /\ mval_in_range p (mvalue (run_cb (mk_cb p a) x)).
+Proof. exact cb_range_exec. Qed.
 
-(* ... and grows with the 14-bit input (same hypotheses) *)
-Theorem C20_bijection_monotone_partial : forall rf rd p a x1 x2,
-  rounding_ok rf rd {| bmin := pmin p; bmax := pmax p |} ->
-  (dy2Q (pmin p) <= dy2Q (pmax p))%Q -> 0 <= x1 -> x1 <= x2 -> x2 < 16384 ->
-  mval_le (mvalue (cb_gen rf rd (mk_cb p a) x1)) (mvalue (cb_gen rf rd (mk_cb p a) x2)).
-Proof. exact cb_monotone. Qed.
+(* grows with the 14-bit input ... *)
+Theorem C20_bijection_monotone : forall p a x1 x2,
+  float24 (pmin p) -> float24 (pmax p) -> (dy2Q (pmin p) <= dy2Q (pmax p))%Q ->
+  0 <= x1 -> x1 <= x2 -> x2 < 16384 ->
+  mval_le (mvalue (run_cb (mk_cb p a) x1)) (mvalue (run_cb (mk_cb p a) x2)).
+Proof. exact cb_monotone_exec. Qed.
+
+(* ... and with the 7-bit value v of the coarse or of the fine controller *)
+Theorem C20_bijection_monotone_7bit : forall p a c v1 v2 old,
+  float24 (pmin p) -> float24 (pmax p) -> (dy2Q (pmin p) <= dy2Q (pmax p))%Q ->
+  0 <= v1 -> v1 <= v2 -> v2 < 128 -> 0 <= old < 16384 ->
+  mval_le (mvalue (run_cb (mk_cb p a) (compose14 c v1 old)))
+          (mvalue (run_cb (mk_cb p a) (compose14 c v2 old))).
+Proof. exact cb_monotone_7bit. Qed.
 
 (* Learning in a quiescent history.  quiescent (MidiSpec) = no midi-bind that
    is not the answer to a midi-use-CC is sent while a controller is pending,
@@ -170,18 +178,37 @@ Proof. exact quiescent_silent. Qed.
 
 (* Refinement against the abstract specification MidiSpec.astep (a finite map
    controller -> (address, coarse|fine), a FIFO of addresses waiting to learn,
-   the realtime side's delayed copy, 7-bit values; no slots, index vectors,
-   inv_map or ring): on every quiescent history the model emits, event by
-   event, exactly the records the specification emits - same queue traffic,
-   same assignments (oldest queued address), a parameter message exactly when
-   the specification's table has the controller and to exactly that address;
-   none for unassigned controllers; unMap/clear/relearn change only what the
-   table says.  _partial: quiescent, <= 32 controllers, and `erase` drops the
-   value a message carries (that the value is the 14-bit composition pushed
-   through the port's callback is C20_compose_14bit + C20_bijection_*; its
-   preservation across cloneValues is not part of this theorem). *)
+   the realtime side's delayed copy, the last 7-bit value of every controller
+   in it, the 14-bit value of an address = coarse*128 + fine pushed through
+   the port's callback; no slots, index vectors, inv_map, cloneValues or
+   ring): on every quiescent history the model emits, event by event, exactly
+   the records the specification emits - same queue traffic, same
+   assignments (oldest queued address), and every parameter message with
+   exactly the specification's address AND value; none for unassigned
+   controllers; unMap / clear / relearn change only what the table says; the
+   two 7-bit halves survive every rebuilt snapshot (cloneValues).
+   _partial: quiescent (the full statement is refuted, C20_refuted) and
+   <= 32 controllers (tight: C20_capacity_refuted). *)
 Theorem C20_refines_spec_partial : forall ports evs tr fin U,
   (length U <= 32)%nat -> incl (ccids evs) U -> Forall (evok ports) evs ->
   run ports world0 evs = (tr, fin) -> quiescent evs tr = true ->
-  map (map erase) tr = map (map erase) (arun ports astate0 evs).
-Proof. exact refine_quiescent. Qed.
+  tr = arun ports astate0 evs.
+Proof. exact refine_quiescent_values. Qed.
+
+(* The bound "<= 32 controllers" of the three _partial theorems above is a
+   real side condition: 40 addresses queued, 34 controllers offered at once,
+   the 33rd (id 32) again - an admissible, quiescent history on which
+   controller 32 is offered twice and takes two queued addresses (the
+   PendingQueue holds 32 ids).  Reproduced on the real code (notes/C20.md).
+   It needs more than 32 queued addresses, outside the property's quantifier
+   (2..4 addresses): an observation, not a finding. *)
+Theorem C20_capacity_refuted :
+  exists tr fin,
+    run cap_ports world0 cap_history = (tr, Some fin) /\
+    Forall (evok cap_ports) cap_history /\
+    quiescent cap_history tr = true /\
+    length (nodup Z.eq_dec (ccids cap_history)) = 34%nat /\
+    offers_of 32 tr = 2%nat /\
+    assigned_targets 32 tr = [(32, true); (34, true)] /\
+    offers_of 31 tr = 1%nat /\ assigned_targets 31 tr = [(31, true)].
+Proof. exact capacity_refuted. Qed.
